@@ -18,7 +18,8 @@ RULE = ("cases = (start position, distance mode, direction, constant-speed "
         "shape (arc/arc_radius/circle/helix with equal radii, 1..8 turns quick, "
         "..64 thorough + a thin class to 600), length/resolution log-uniform "
         "in 1..500 (thorough: thin class to 1e4), radius >= 5 resolutions (half the "
-        "cases: radius >= 0.5 resolutions), optionally after another traced path "
+        "cases: radius >= 0.5 resolutions), optionally placed 1.5e4..4e4 resolutions "
+        "away from the origin, optionally after another traced path "
         "or after the same path traced at another resolution on the same builder) for "
         "the length clauses; any of the eight shapes at res and res/2 for the "
         "monotonicity clause; (resolution, unit switch sequence) for the units "
@@ -99,8 +100,18 @@ def check_lengths(case, cl):
     # chords of the library's fine samples (resolution/10 apart) must stay close
     # to arcs for its own bookkeeping to mean "path travelled": radius >= res/2
     res = min(L / case["ratio"], r / (5.0 if case.get("wide_radius", True) else 0.5))
+    start = case["start"]
+    if case.get("far_mult"):
+        # the same request placed far from the origin *relative to the
+        # resolution* (coordinates of 1.5e4..4e4 resolutions, capped where the
+        # tracer's own cost explodes): relative tolerances on coordinates must
+        # not merge samples that are a tenth of a resolution apart
+        m = min(case["far_mult"] * res, 9000.0)
+        sx, sy = case.get("far_sign", [1, 1])
+        start = [sx * m, sy * m, (case["start"] or [0, 0, 0])[2]]
+        cl.add("far_from_origin_in_resolutions")
     # optionally another path was traced on the same builder just before
-    run = geom.run_shape(case["start"], case["mode"], case["dir"], 9, d, res=res,
+    run = geom.run_shape(start, case["mode"], case["dir"], 9, d, res=res,
                          pre=case.get("pre"), rehearse=case.get("rehearse"))
     if case.get("pre"):
         cl.add("after_another_traced_path")
@@ -229,6 +240,8 @@ def run_shard(ctx):
         base, kind=st.just("lengths"), desc=const_shape(8 if quick else 64),
         wide_radius=st.booleans(), ratio=log_ratio(500),
         rehearse=st.sampled_from([None, None, None, 3.7, 1.37, 7.3, 0.73]),
+        far_mult=st.sampled_from([None, None, None, 1.5e4, 4e4]),
+        far_sign=st.sampled_from([[1, 1], [-1, 1], [1, -1], [-1, -1]]),
         pre=st.one_of(st.none(), st.none(), hist.shape_strategy(2)))), body_len, 45 if quick else 1500, sub="lengths")
 
     def body_half(case):
